@@ -95,6 +95,11 @@ CLAIMED = {
    text="Random and boundary ints/floats/strings/nested arrays injected as globals: write(x) == write(toa(x)) == toa(x) == reference rendering and aton(toa(n)) == n; fromto/elems/indices collected by loops against plain lists; every built-in with 0..3 arguments of 9 kinds must fail exactly when its contract says so; successive read() calls must return successive lines then a read error, in-process and with the real binary reading a pipe, a file, a chunk-fed FIFO and a file with an injected EIO.",
    note="Float rendering = Go shortest round-trip formatting; input always ends with a newline; after an injected EIO only 'reported, process alive, script continues' is demanded.",
    design="6/C17"),
+ "C19": dict(
+   technique="runtime monitoring: trace-specification checker over the recorded error report (parsed) against the reference semantics' call/coroutine trace and the step hook's last dispatched instruction",
+   text="Failing statements of every error class at call depth up to 200, in loops, (nested) generators, pipeline stage functions, closures, function-valued parameters and built-ins are executed; the printed report is parsed and checked: header class, marked instruction equals the hook's last dispatched instruction and belongs to the failing operation's opcode family, listed operands are an ordered subset of the operands the operation saw, one context block per active coroutine with call-site names, argument counts and current argument values innermost first; never 'giving up', never a panic.",
+   note="Operand-list completeness is not demanded; values are compared in the report's own 20-character abbreviation; a nil operand may be reported by the MOV that loads it.",
+   design="6/C19"),
 }
 
 ALL = ["C%02d" % i for i in range(1, 20)]
